@@ -73,20 +73,21 @@ class Work:
 
             # the scheduler reads the clock somewhere between invoke and return: the due time is known as an interval
             delay = 0 if kind == "imm" else op[2] * 1000
-            rec["due"] = sim.now + delay
+            rec["due"] = (self.base_us if kind == "abs" else sim.now) + delay  # absolute times from one base instant, so ties occur
             try:
                 if kind == "imm":
                     disps[aid] = sch.schedule(action)
                 elif kind == "rel":
                     disps[aid] = sch.schedule_relative(op[2] / 1000.0, action)
                 else:
-                    disps[aid] = sch.schedule_absolute(sim.utcnow() + timedelta(milliseconds=op[2]), action)
+                    disps[aid] = sch.schedule_absolute(self.base_dt + timedelta(milliseconds=op[2]), action)
             except DisposedException:
                 rec["error"] = "DisposedException"
             rec["due_hi"] = rec["due"] if kind == "abs" else sim.now + delay
             rec["ret"] = sim.tick()
 
         sim.mark()
+        self.base_us, self.base_dt = sim.now, sim.utcnow()
 
         def worker(ops):
             def run():
